@@ -132,6 +132,18 @@ CHECKS.update(
     }
 )
 
+CHECKS.update(
+    {
+        "C11": (
+            "Hypothesis-generated construction/run schedules over one template with deep fingerprint and differential oracles; same spec across fresh processes with different PYTHONHASHSEED",
+            "Generated schedules (1-3 backtests from one template, any construction/run order, repeated run()) with deep fingerprints of template and input frames and a differential "
+            "comparison against a lone backtest; generated specs re-executed in fresh interpreter processes under several hash seeds must give bit-identical histories.",
+            "random / numpy.random are seeded from the spec immediately before each run; the harness owns process creation.",
+            "5/C11",
+        ),
+    }
+)
+
 NOT_YET = {}
 
 ALL = ["C%02d" % i for i in range(1, 21)]
